@@ -75,6 +75,10 @@ def parse_tlc_output(out, res):
         pass
     if m:
         res.generated, res.distinct = int(m.group(1)), int(m.group(2))
+    ms = re.search(r'The number of states generated: (\d+)', out)
+    if ms and res.generated == 0:
+        # simulation mode: states visited along the random behaviours
+        res.generated = res.distinct = int(ms.group(1))
     m = re.search(r'The depth of the complete state graph search is (\d+)', out)
     if m:
         res.depth = int(m.group(1))
